@@ -124,16 +124,51 @@ def unsafe_rule(ctx, facts):
                 ctx.ok("UNSAFE", u["fn"], "from_raw_parts with ownership given up by %s and same layout" % hirq.show(gives_up[0])[:40], hirq.loc(c))
 
 
-def sha_rule(ctx, facts):
+def sha_rule(ctx, facts, rule="SHASEED"):
+    """the digest that seeds an item's generator is computed from that item's byte identity alone: one update fed with
+    key.get_sig(), on a hasher that is fresh for the item (created in the per-item loop body before the update, or reset by
+    finalize_reset with no way to skip from the update to the next item in between)"""
+    from ..rulelib import for_loops
     SHA = "probminhasher::probminhash3sha::ProbMinHash3aSha::<D>::"
     for name in ("hash_weigthed_idxmap", "hash_weigthed_hashmap"):
         fid = SHA + name
         fn = facts.fn(fid)
+        t = tree_of(fn)
         ups = [x for x in user_nodes(fn) if x["k"] == "MethodCall" and x["name"] in ("update", "chain_update", "update_with") and "sha2" in (x.get("recv_ty", "") + x.get("callee", "") + x.get("resolved", ""))]
-        if len(ups) == 1 and nf.nf(ups[0]["args"][0]) in ("key.get_sig()",):
-            ctx.ok("SHASEED", fid, "hasher.update(&key.get_sig()) is the only input of the digest", hirq.loc(ups[0]))
+        if len(ups) != 1 or nf.nf(ups[0]["args"][0]) not in ("key.get_sig()",):
+            ctx.violation(rule, fid, "digest input", hirq.loc(fn), "expected exactly one Sha512_256 update fed with key.get_sig(); found %s" % [nf.nf(u["args"][0])[:40] for u in ups])
+            continue
+        up = ups[0]
+        hname = nf.nf(up["recv"])
+        fins = [x for x in user_nodes(fn) if x["k"] == "MethodCall" and x["name"] in ("finalize", "finalize_reset", "finalize_fixed") and nf.nf(x["recv"]) == hname]
+        fl = [f for f in for_loops(fn) if t.contains(f["body"], up)]
+        news = [x for x in user_nodes(fn) if x["k"] == "Let" and x["pat"]["k"] == "Bind" and x["pat"]["name"] == hname]
+        if len(fins) != 1 or not fl or len(news) != 1:
+            ctx.violation(rule, fid, "digest lifecycle", hirq.loc(up), "expected one hasher definition, one update and one finalize per item; found %d definition(s), %d finalize call(s)" % (len(news), len(fins)))
+            continue
+        body = fl[0]["body"]
+        fresh = t.contains(body, news[0]) and hir_dominates(t, news[0], up)
+        same_blk = t.parent.get(id(up)) is not None
+        # statements between update and finalize in the loop body must not leave the iteration
+        path_ok = hir_dominates(t, up, fins[0])
+        between = []
+        if body["k"] == "Block":
+            stmts = body["stmts"] + ([body["expr"]] if "expr" in body else [])
+            iu = next((i for i, s_ in enumerate(stmts) if t.contains(s_, up)), None)
+            ifin = next((i for i, s_ in enumerate(stmts) if t.contains(s_, fins[0])), None)
+            if iu is not None and ifin is not None:
+                for s_ in stmts[iu:ifin + 1]:
+                    for x in hirq.walk(s_):
+                        if x["k"] in ("Continue", "Break", "Ret") and not hirq.from_expansion(x) and x["sp"][1] >= up["sp"][1] and x["sp"][1] <= fins[0]["sp"][1]:
+                            between.append(x)
+        if fresh and path_ok and not between:
+            ctx.ok(rule, fid, "fresh Sha512_256 per item: new -> update(&key.get_sig()) -> finalize in one iteration", hirq.loc(up))
+        elif not fresh and fins[0]["name"] == "finalize_reset" and path_ok and not between:
+            ctx.ok(rule, fid, "hasher reused with finalize_reset; every update is followed by the reset in the same iteration", hirq.loc(up))
         else:
-            ctx.violation("SHASEED", fid, "digest input", hirq.loc(fn), "expected exactly one Sha512_256 update fed with key.get_sig(); found %s" % [nf.nf(u["args"][0])[:40] for u in ups])
+            ctx.violation(rule, fid, "digest not fresh per item", hirq.loc(up),
+                          "the Sha512_256 hasher is %s and %s: bytes of one key can remain in the hasher and be digested together with the next key, so the generator seed is no longer a function of the item alone"
+                          % ("created inside the per-item loop" if fresh else "shared across items", "the iteration can be left between update and finalize (%s at %s)" % (between[0]["k"].lower(), hirq.loc(between[0])) if between else "update does not dominate finalize"))
 
 
 def run(ctx, facts):
